@@ -1,7 +1,10 @@
 import SurfModel.Proto
 import SurfModel.Kitty
 import SurfModel.KittyStream
+import SurfModel.KittyWrite
 def main : IO Unit := SurfModel.Proto.serve fun
   -- `model` requests are computed by the streaming handler model (payload through the `Base64Encoder` model)
+  -- `modelw`: histories in which some events get a writer that fails after a number of bytes
+  | "c11" :: "modelw" :: rest => SurfModel.KittyWrite.handle rest
   | "c11" :: rest => SurfModel.KittyStream.handle rest
   | _ => "bad-op"
